@@ -170,7 +170,7 @@ func runC07(c *vlib.Check) {
 	}
 	c.Rule = fmt.Sprintf("explicit-state search over transport answers: message sequences of length <=%d over sizes {8,16,24,520,1032} and top-level padded scalars (5-byte text, 9-byte byte string, integer); every Read(p) is answered with a size from {len(p),1,2,7,8,len(p)-1} "+
 		"(deviation = any answer other than len(p), bound %d, iterated); all 2^(L-1) segmentations of every stream of L<=%d bytes; truncation of every stream at every offset (with full reads and with 1-byte reads); "+
-		"announced lengths {limit-8, limit, limit+8, 2^31, 2^32-1} against limits {64, 1 MiB}; every answer sequence also with the limit set to the largest message of the sequence (a per-message limit must not act on the stream total); "+
+		"announced value lengths {limit-24 .. limit+8 incl. unaligned ones, 2^31-16 .. 2^31+8, 0xBFFFFFF8, 2^32-16 .. 2^32-1} against limits {64, 1 MiB}; every answer sequence also with the limit set to the largest message of the sequence (a per-message limit must not act on the stream total); "+
 		"size histories: all ordered pairs of message sizes 16..2048 step 8 (thorough: ..8192, and triples on a 136-byte grid) on one stream, with and without that limit. Reference model: split the byte stream at the announced padded lengths. "+
 		"states = distinct (stream, answer sequence) pairs, transitions = Recv calls", maxSeq, maxDev, segL)
 	c.Assumptions = []string{"the transport never returns more than len(p) bytes and returns at least one byte per successful Read"}
@@ -342,8 +342,9 @@ func runC07(c *vlib.Check) {
 	}
 	// (4) announced lengths against the configured maximum (sequential: measures allocation)
 	for _, limit := range []int{64, 1 << 20} {
-		for _, total := range []int64{int64(limit) - 8, int64(limit), int64(limit) + 8, 1 << 31, 1<<32 - 1 + 8 - 7} {
-			vl := total - 8
+		for _, vl := range []int64{int64(limit) - 24, int64(limit) - 16, int64(limit) - 13, int64(limit) - 8, int64(limit) - 7, int64(limit), int64(limit) + 8, 0x7FFFFFF0, 0x7FFFFFF8, 0x7FFFFFFF,
+			0x80000000, 0x80000001, 0x80000008, 0xBFFFFFF8, 0xFFFFFFF0, 0xFFFFFFF7, 0xFFFFFFF8, 0xFFFFFFF9, 0xFFFFFFFF} {
+			total := 8 + (vl+7)/8*8 // header + padded value
 			hdr := []byte{0x42, 0x00, 0x69, 0x08, byte(vl >> 24), byte(vl >> 16), byte(vl >> 8), byte(vl)}
 			var stream []byte
 			within := total <= int64(limit)
@@ -360,7 +361,7 @@ func runC07(c *vlib.Check) {
 			var err error
 			pv, site := vlib.Catch(func() { err = st.Recv(&v) })
 			runtime.ReadMemStats(&ms1)
-			c.Eval([]byte(fmt.Sprint("limit", limit, total)), true)
+			c.Eval([]byte(fmt.Sprint("limit", limit, vl)), true)
 			states++
 			rep := map[string]any{"kind": "limit", "limit": limit, "announced_total": total, "header": hex.EncodeToString(hdr)}
 			switch {
